@@ -197,7 +197,9 @@ impl LogFileWriter {
             for event in receiver {
                 event.write_jsonl(&mut buffer).unwrap();
                 let now = SystemTime::now();
-                if file.len + (buffer.len() as u64) > self.max_write_bytes
+                // Also start a new file when this one would outgrow `max_keep_bytes`,
+                // so the files on disk never exceed it by more than one event.
+                if file.len + (buffer.len() as u64) > self.max_write_bytes.min(self.max_keep_bytes)
                     || file.age(now) > self.max_write_age
                 {
                     file_set.push(PrefixFile {
@@ -212,7 +214,8 @@ impl LogFileWriter {
                 }
                 file_set
                     .delete_oldest_while_over_max_len(
-                        self.max_keep_bytes - file.len - (buffer.len() as u64),
+                        self.max_keep_bytes
+                            .saturating_sub(file.len + (buffer.len() as u64)),
                     )
                     .unwrap();
                 file.write_all(&buffer).unwrap();
